@@ -46,6 +46,7 @@ def describe(tier):
     b = BOUNDS[tier]
     return {
         "rule": (
+            __import__("mdmc.props._engineprop", fromlist=["RULE_STRETCH"]).RULE_STRETCH +
             "configuration = text of N distinct bytes x ordered list (registry order) of <=K hits, each hit = interval x kind "
             f"{hitx.KINDS} x depth budget x recursion mode {hitx.MODES} x grouping (one decoder per hit / one decoder for all); "
             "ALL such configurations are enumerated (BFS by number of hits, partitioned by first hit) and each is executed on the "
@@ -76,6 +77,10 @@ def plan(tier, seed):
                 units.append((blk_kind, tier, bi, ci))
     for u in streams.plan(b["streams"]):
         units.append(("stream", u))
+    from mdmc.props import _engineprop as ep
+    for si, blk in enumerate(ep.STRETCH[tier]):
+        for ci in range(len(hitx.candidates(ep.STRETCH_N, blk["kinds"]))):
+            units.append(("stretch", tier, si, ci))
     return units
 
 
@@ -124,11 +129,12 @@ def cause(T, hits):
     return sorted(set(out)) or ["other"]
 
 
-def check_run(rec, run: hitx.Run, size):
-    rec.count("traces")
-    rec.count("transitions", run.trace.transitions)
-    for s in run.trace.states:
-        rec.mark("states", s)
+def check_run(rec, run: hitx.Run, size, w=None, counted=False):
+    if not counted:
+        rec.count("traces")
+        rec.count("transitions", run.trace.transitions)
+        for s in run.trace.states:
+            rec.mark("states", s)
     it, mt = trees.tup(run.impl), run.model.tup()
     rec.mark("outcomes", mt)
     opened = any(len(s[0]) > 0 for s in run.trace.states)
@@ -138,11 +144,11 @@ def check_run(rec, run: hitx.Run, size):
     if d:
         path, cat = d
         c = ",".join(cause(run.T, run.hits))
-        rec.violation("C06.tree-equals-model", f"{cat}|{c}", run.describe(),
+        rec.violation("C06.tree-equals-model", f"{cat}|{c}", w or run.describe(),
                       f"implementation tree differs from the interval-nesting model at child path {list(path)}: {cat}; "
                       f"impl={core.short(it, 200)} model={core.short(mt, 200)}", size)
     elif not parents_ok(run.impl):
-        rec.violation("C06.parent-links", "reparented", run.describe(),
+        rec.violation("C06.parent-links", "reparented", w or run.describe(),
                       "a node's parent pointer does not name the node whose child list holds it", size)
 
 
@@ -228,6 +234,10 @@ def run_optimize(rec, flag):
 
 def run_unit(unit, rec):
     kind = unit[0]
+    if kind == "stretch":
+        from mdmc.props import _engineprop as ep
+        ep.run_unit(unit, rec, {}, "C06.total", lambda rec, run, w, size: check_run(rec, run, size, w, counted=True), None)
+        return
     if kind == "optimize":
         run_optimize(rec, unit[1])
         return
@@ -315,7 +325,10 @@ def stream_monitor(rec, case):
 
 def replay(w, rec):
     eng = w.get("engine")
-    if eng == "hitx" and w.get("entry") == "scan_node":
+    if eng == "hitx-stretch":
+        from mdmc.props import _engineprop as ep
+        ep.replay(w, rec, "C06.total", lambda rec, run, w, size: check_run(rec, run, size, w, counted=True), None)
+    elif eng == "hitx" and w.get("entry") == "scan_node":
         T, hits = w["T"], tuple(tuple(h) for h in w["hits"])
         run = hitx.execute(T, hits, w["depth"], w["mode"], w["grouped"])
         check_entry_point(rec, T, hits, w["depth"], w["mode"], w["grouped"], run.model.tup(), 0)
